@@ -304,7 +304,7 @@ def run(ctx):
                       {"items": smeta[i][0], "parser": smeta[i][1], "program": unesc(smeta[i][2])})
 
     # ---------------------------------------------------------------- programs vs re-layouts (direct oracle)
-    nprog = 500 if quick else 4000
+    nprog = 500 if quick else 8000
     rc, out = vlib.sh([hx, "--mode", "var", "--seed", str(ctx.seed), "--n", str(nprog), "--opts", "0,2" if quick else "0,1,2,3"], timeout=2400)
     if rc != 0:
         ctx.violation("c15:harness-crash:var", "hx_asi --mode var crashed", {"tail": out[-2000:]})
